@@ -505,6 +505,16 @@ func Gen(t *rapid.T, o Opts) Module {
 			g.pkgKeys = append(g.pkgKeys, k)
 		}
 	}
+	if seen["alpha"] || seen["alphb"] || seen["alphc"] {
+		if g.intn("namesakes", 0, 2) == 0 {
+			for _, k := range []string{"alpha", "alphb", "alphc"} {
+				if !seen[k] && !o.avoid("pkg:"+k) {
+					seen[k] = true
+					g.pkgKeys = append(g.pkgKeys, k)
+				}
+			}
+		}
+	}
 	maxP, maxI := 3, 3
 	if o.MaxPkgs > 0 {
 		maxP = o.MaxPkgs
